@@ -96,7 +96,7 @@ class Outcome:
         return f"<Outcome {self.kind} {self.node}>"
 
 
-def simulate(cfg: CFG, env: Callable[[ast.expr], Optional[bool]], start: Optional[Node] = None, max_steps: int = 400) -> List[Outcome]:
+def simulate(cfg: CFG, env: Callable[[ast.expr], Optional[bool]], start: Optional[Node] = None, max_steps: int = 400, expand: Optional[Callable[[ast.AST], ast.AST]] = None) -> List[Outcome]:
     """
     Follow the CFG from *start* deciding each branch with Kleene evaluation under
     *env*.  Undecided branches fork.  Loops (``iter`` nodes) take the 'done'
@@ -136,6 +136,8 @@ def simulate(cfg: CFG, env: Callable[[ast.expr], Optional[bool]], start: Optiona
         succ = cfg.succ[node.id]
         if node.kind == "test":
             val = eval3(node.ast, env)  # type: ignore[arg-type]
+            if val is None and expand is not None:
+                val = eval3(expand(node.ast), env)  # type: ignore[arg-type]
             for nxt, label in succ:
                 if val is None or label == val:
                     walk(cfg.nodes[nxt], trail, seen)
